@@ -105,7 +105,7 @@ func init() {
 	t("t_key", `"abc" // {regex: "[a-z]+"}`)
 	t("t_or", "{\n  \"v\": 1 // {or: [{type: \"integer\", min: 0}, {type: \"string\", minLength: 2}]}\n}")
 	t("t_m1", `{"x": @m1}`)
-	t("t_m2", `{"y": @m2}`)
+	t("t_m2", `{"yy":  @m2}`)
 	t("t_empty", ``)
 	Schemas = append(Schemas, SchemaSpec{ID: "t_enum", Text: `"a" // {enum: @e}`, IsType: true, Rules: []RuleRef{{"@e", 0}}})
 	Schemas = append(Schemas, SchemaSpec{ID: "t_hoist", Text: `{"u": @u}`, IsType: true, Types: []TypeRef{ty("@u", "t_num")}})
